@@ -300,6 +300,7 @@ let rec string_of_eop = function
   | EMsgRepPtr (_, n, _) -> "(emsgrepptr " ^ string_of_z n ^ ")"
   | EMsgPresent (_, n, _) -> "(emsgpresent " ^ string_of_z n ^ ")"
   | EMsgRepVal (_, n, _) -> "(emsgrepval " ^ string_of_z n ^ ")"
+  | EMsgAlwaysVal (_, n, _) -> "(emsgalwaysval " ^ string_of_z n ^ ")"
   | EEnum (a, _, n) -> "(eenum " ^ b01 a ^ " " ^ string_of_z n ^ ")"
   | ERepEnum (_, n) -> "(erepenum " ^ string_of_z n ^ ")"
   | ECast (c, p, r, _, n) -> "(ecast " ^ string_of_cast c ^ " " ^ b01 p ^ " " ^ b01 r ^ " " ^ string_of_z n ^ ")"
